@@ -64,9 +64,20 @@ def concatVals (nilText : Bool) : List (Val N) → R String
     let rest ← concatVals nilText xs
     pure (s ++ rest)
 
-/-- Aggregate and scalar built-ins over already evaluated arguments.
-    `star` is `current["*"]` when it is an array (COUNT with no arguments). -/
-def callBuiltin (concatNilText : Bool) (name : String) (star : Option (List (Val N)))
+/-- the fixed-arity functions and the count each passes to `Guard(n, args)` as its first statement;
+    the registry of the Go code is compared with this table on every run (regenerated facts) -/
+def arities : List (String × Nat) :=
+  [("sum", 1), ("avg", 1), ("min", 1), ("max", 1), ("first", 1), ("last", 1), ("elementat", 2), ("unwind", 1),
+   ("if", 3), ("to_lower", 1), ("to_upper", 1), ("daterange", 2), ("changetype", 2), ("fuse", 1),
+   ("defaultkey", 1), ("raise", 1), ("raise_when", 2), ("report", 1), ("report_when", 2)]
+
+def arityOf (name : String) : Option Nat :=
+  match arities.find? (fun p => p.1 == name) with
+  | some p => some p.2
+  | none => none
+
+/-- the bodies of the built-ins, after the arity guard -/
+def callBody (concatNilText : Bool) (name : String) (star : Option (List (Val N)))
     (fromLen : Nat) (args : List (Val N)) : R (IVal N) :=
   match name, args with
   | "sum", [a] => do
@@ -186,11 +197,14 @@ def callBuiltin (concatNilText : Bool) (name : String) (star : Option (List (Val
     match c with
     | .bool _ => .ok .omit
     | _ => .error .error
-  | n, _ =>
-    if n ∈ ["sum", "avg", "min", "max", "first", "last", "elementat", "unwind", "if", "to_lower",
-            "to_upper", "daterange", "changetype", "fuse", "defaultkey", "raise", "raise_when",
-            "report", "report_when"]
-    then .error .error          -- wrong arity: `Guard` fails
-    else .error .oom            -- not a function of this model
+  | _, _ => .error .oom            -- not a function of this model
+
+/-- Aggregate and scalar built-ins over already evaluated arguments: `Guard(n, args)` first, then
+    the body.  `star` is `current["*"]` when it is an array (COUNT with no arguments). -/
+def callBuiltin (concatNilText : Bool) (name : String) (star : Option (List (Val N)))
+    (fromLen : Nat) (args : List (Val N)) : R (IVal N) :=
+  match arityOf name with
+  | some n => if args.length = n then callBody concatNilText name star fromLen args else .error .error
+  | none => callBody concatNilText name star fromLen args
 
 end Genql
